@@ -160,7 +160,7 @@ def _post_matrix(mon, call):
         return
     # a gate that only shares a built-in's name (a user's MatrixFactoryGate) is not judged: built-in gates are the
     # ones made by the table entry itself, i.e. equal to what the entry makes from the same parameters
-    if len(gate.params) != e["nparams"]:
+    if len(gate.params) not in e.get("arities", [e["nparams"]]):
         mon.out_of_domain(name)
         return
     try:
@@ -227,6 +227,8 @@ def _obligations():
     for name in sorted(tab):
         e = tab[name]
         out.append((name, "unitary"))
+        for k in e.get("arities", [])[1:]:
+            out.append((name, f"unitary/{k}"))  # the gate given its optional parameters as well
         if e["hermitian"]:
             out.append((name, "hermitian"))
         if name in GROUP_GATES:
@@ -639,7 +641,10 @@ def run_case(ctx):
             raise Exhausted()
         name, kind = obs[ctx.index]
         e = tab[name]
-        syms = sympy.symbols(f"t0:{e['nparams']}", real=True) if e["nparams"] else ()
+        npar = e["nparams"]
+        if "/" in kind:
+            kind, npar = kind.split("/")[0], int(kind.split("/")[1])
+        syms = sympy.symbols(f"t0:{npar}", real=True) if npar else ()
         ctx.describe(f"sym {name} {kind} params={syms}", True)
         g = _make(name, syms)
         try:
@@ -729,7 +734,10 @@ def run_case(ctx):
     if cls == "num_random":
         name = rng.choice(sorted(n for n in tab if tab[n]["nparams"]))
         e = tab[name]
-        params = tuple(rng.uniform(-10, 10) if rng.random() < 0.8 else rng.randint(-6, 6) for _ in range(e["nparams"]))
+        npar = e["nparams"]
+        if len(e.get("arities", ())) > 1 and rng.random() < 0.5:
+            npar = rng.choice(e["arities"][1:])
+        params = tuple(rng.uniform(-10, 10) if rng.random() < 0.8 else rng.randint(-6, 6) for _ in range(npar))
         ctx.describe(f"num {name}{params}", True)
         try:
             _make(name, params).matrix
